@@ -298,7 +298,7 @@ func (c *Ctx) renderArg(v value) string {
 			}
 			return "<sym>"
 		}
-		if m := c.eng.prog.LookupMethod(v.t, nil, "Error"); m != nil {
+		if m := c.eng.findMethod(v.t, "Error"); m != nil {
 			return c.panicString(v)
 		}
 		return "<" + v.t.String() + ">"
@@ -393,13 +393,13 @@ func init() {
 					return TTrue
 				}
 			}
-			if m := c.eng.prog.LookupMethod(err.t, nil, "Is"); m != nil && m.Signature.Params().Len() == 1 {
+			if m := c.eng.findMethod(err.t, "Is"); m != nil && m.Signature.Params().Len() == 1 {
 				r := c.callSSA(fr, pos, m, []value{err.v, target}, nil)
 				if c.decideBool(asTerm(r), pos) {
 					return TTrue
 				}
 			}
-			m := c.eng.prog.LookupMethod(err.t, nil, "Unwrap")
+			m := c.eng.findMethod(err.t, "Unwrap")
 			if m == nil || m.Signature.Results().Len() != 1 {
 				return TFalse
 			}
@@ -417,7 +417,7 @@ func init() {
 		if err.t == nil {
 			return iface{}
 		}
-		m := c.eng.prog.LookupMethod(err.t, nil, "Unwrap")
+		m := c.eng.findMethod(err.t, "Unwrap")
 		if m == nil || m.Signature.Results().Len() != 1 {
 			return iface{}
 		}
